@@ -657,7 +657,10 @@ class BiproportionalEvaluator:
         """
         aug_path = [start_district]
         cur_source = districts_labeled
-        while aug_path[-1] not in districts_over:
+        # stop only at a district node: a party may carry the same label as
+        # an over-represented district
+        while (cur_source is not districts_labeled
+               or aug_path[-1] not in districts_over):
             aug_path.append(cur_source[aug_path[-1]].pop())
             if cur_source is parties_labeled:
                 cur_source = districts_labeled
